@@ -30,7 +30,9 @@ import os as _os
 _os.environ["ZCV_EMPTY"] = ""          # a variable that is set, to nothing
 EXTRA_SHAPES = ["k a$$b", "k $$", "k (x", "K v2", "k v", "%import q$$", "<a/ >", "<a n/ >",
                 "</a/>", "<B N>", "</B>", "%import p", "<a//>", "<a n//>",
-                "k a\u2028b", "k a\x0cb\x85c", "k a\rb", "%include $(ZCV_EMPTY)", "%define $(ZCV_EMPTY)", "<a A>", "<b B/>"]
+                "k a\u2028b", "k a\x0cb\x85c", "k a\rb", "%include $(ZCV_EMPTY)", "%define $(ZCV_EMPTY)", "<a A>", "<b B/>",
+                # U+FEFF is no blank: it is part of a key, on whichever line the key is written
+                "\ufeffk v", "\ufeff<a>", "\ufeff# c"]
 
 
 def _mods():
